@@ -8,9 +8,10 @@
 (* failing clause; Finish prints <<"V", tid, err, l>> once per trace and   *)
 (* <<"T", tid, k, ncmp, nflat, bad>> (k = index of the offending port      *)
 (* entry / variable; ncmp / nflat = leaf comparisons made / made through a *)
-(* multi-leaf FlatMap layout; bad = indices of all differing port entries  *)
-(* of the failing event) and, in mode "drv", <<"R", tid, first        *)
-(* multiply driven variable, #multiply driven, #undriven>>.                *)
+(* multi-leaf FlatMap layout; bad = indices of all port entries that       *)
+(* differ in any event of the trace, printed in chunks) and, in mode       *)
+(* "drv", <<"R", tid, first multiply driven variable, #multiply driven,    *)
+(* #undriven>>.  An output mismatch does not end a trace (see AllBad).     *)
 (*                                                                         *)
 (* Trace := [d: design (see SVSem), mode: "run" | "drv", ev: Seq(Event)]   *)
 (* Event := [in:   Seq(Port)   values driven before settling,              *)
@@ -36,8 +37,8 @@ BS == INSTANCE BitStruct WITH Shape <- [k |-> "leaf", w |-> 1], Names <- {}, obj
 Input  == JsonDeserialize(IOEnv.VERIF_INPUT)
 Traces == Input.traces
 
-VARIABLES tid, l, err, fin, st, k, ncmp, nflat, bad
-tvars == <<tid, l, err, fin, st, k, ncmp, nflat, bad>>
+VARIABLES tid, l, err, fin, st, k, ncmp, nflat, bad, merr, ml
+tvars == <<tid, l, err, fin, st, k, ncmp, nflat, bad, merr, ml>>
 
 T == Traces[tid]
 D == T.d
@@ -93,19 +94,28 @@ Compare(d, s, outs, clause) ==
 NLeaves(ps, flatonly) ==
     FoldLeft(LAMBDA a, p : IF flatonly /\ p.ty.k = "leaf" THEN a ELSE a + Len(BS!Layout(p.ty)), 0, ps)
 
-\* every port entry of `outs` that differs (at most 8 are reported): a known mismatch on one port must
-\* not hide a mismatch on another one
+\* every port entry of `outs` that differs.  An output mismatch does not end the validation of a trace:
+\* the first mismatch is remembered (merr, ml, k) and the run goes on with the state of the Verilog model,
+\* collecting in `bad` the indices of all port entries that ever differ (the entries of every event of a
+\* recorded run list the same ports in the same order) - a known mismatch on one port, or in an early
+\* cycle, must not hide a mismatch on another port or in a later cycle.
 AllBad(d, s, outs, clause) ==
     LET one(i) == Compare(d, s, <<outs[i]>>, clause).err # "ok"
-        all    == SelectSeq(S!Idx(Len(outs)), one)
-    IN  SubSeq(all, 1, S!Min2(Len(all), 8))
+    IN  SelectSeq(S!Idx(Len(outs)), one)
+MaxBad == 48
+Merge(b, new) ==
+    LET fresh(i) == \A j \in 1..Len(b) : b[j] # i
+        all == b \o SelectSeq(new, fresh)
+    IN  SubSeq(all, 1, S!Min2(Len(all), MaxBad))
 
 Init == /\ tid \in 1 .. Len(Traces)
         /\ l = 0 /\ err = "ok" /\ fin = FALSE /\ k = 0
         /\ st = <<>> /\ ncmp = 0 /\ nflat = 0 /\ bad = <<>>
+        /\ merr = "ok" /\ ml = 0
 
-Fail(c, kk) == err' = c /\ k' = kk /\ UNCHANGED <<tid, l, fin, st, ncmp, nflat, bad>>
-FailAll(c, kk, b) == err' = c /\ k' = kk /\ bad' = b /\ UNCHANGED <<tid, l, fin, st, ncmp, nflat>>
+Fail(c, kk) == /\ err' = c
+               /\ k' = IF merr = "ok" THEN kk ELSE k
+               /\ UNCHANGED <<tid, l, fin, st, ncmp, nflat, bad, merr, ml>>
 
 \* l = 0: build the initial state (or, in mode "drv", evaluate OneDriver)
 Start ==
@@ -116,39 +126,62 @@ Start ==
                /\ k' = r.multi
                /\ PrintT(<<"R", tid, r.multi, r.nmulti, r.undriven>>)
                /\ l' = Len(T.ev) + 1
-               /\ UNCHANGED <<tid, fin, st, ncmp, nflat, bad>>
+               /\ UNCHANGED <<tid, fin, st, ncmp, nflat, bad, merr, ml>>
        ELSE
            LET c == S!InitState(D)
            IN  IF c.err # "ok" THEN Fail(c.err, 0)
-               ELSE /\ st' = c.st /\ l' = 1 /\ UNCHANGED <<tid, err, fin, k, ncmp, nflat, bad>>
+               ELSE /\ st' = c.st /\ l' = 1 /\ UNCHANGED <<tid, err, fin, k, ncmp, nflat, bad, merr, ml>>
 
+\* d.stop = TRUE: the first output mismatch ends the trace (used for the first validation of a design with
+\* signed variables: it is validated again with every operand unsigned, and that run collects everything)
+StopAtMismatch == "stop" \in DOMAIN D /\ D.stop
+
+\* One event.  (Everything is computed in this one LET and the expensive values are forced with TLCEval:
+\* TLC passes operator arguments and LET definitions lazily and may evaluate them once per use.)
 Step ==
     /\ l >= 1
     /\ LET ev == T.ev[l]
-           s1 == Drive(D, st, ev.in)
-           s2 == S!SettleAll(D, s1.st)
-           c1 == Compare(D, s2.st, ev.outc, "mismatch-comb")
-           s3 == S!Edge(D, s2.st)
-           s4 == S!SettleAll(D, s3.st)
-           c2 == Compare(D, s4.st, ev.outt, "mismatch-tick")
+           s1 == TLCEval(Drive(D, st, ev.in))
+           s2 == TLCEval(IF s1.err = "ok" THEN S!SettleAll(D, s1.st) ELSE [st |-> st, err |-> "skipped"])
+           c1 == TLCEval(IF s2.err = "ok" THEN Compare(D, s2.st, ev.outc, "mismatch-comb") ELSE [err |-> "skipped", k |-> 0])
+           m1 == c1.err = "mismatch-comb"
+           go == c1.err = "ok" \/ m1
+           s3 == TLCEval(IF go /\ ev.tick THEN S!Edge(D, s2.st) ELSE [st |-> st, err |-> "skipped"])
+           s4 == TLCEval(IF s3.err = "ok" THEN S!SettleAll(D, s3.st) ELSE [st |-> st, err |-> "skipped"])
+           c2 == TLCEval(IF s4.err = "ok" THEN Compare(D, s4.st, ev.outt, "mismatch-tick") ELSE [err |-> "skipped", k |-> 0])
+           m2 == c2.err = "mismatch-tick"
+           b1 == IF m1 THEN AllBad(D, s2.st, ev.outc, "mismatch-comb") ELSE <<>>
+           b2 == IF m2 THEN AllBad(D, s4.st, ev.outt, "mismatch-tick") ELSE <<>>
+           first == IF m1 THEN c1 ELSE c2
+           ticked == ev.tick
        IN  IF s1.err # "ok" THEN Fail(s1.err, s1.k)
            ELSE IF s2.err # "ok" THEN Fail("comb:" \o s2.err, 0)
-           ELSE IF c1.err # "ok" THEN FailAll(c1.err, c1.k, AllBad(D, s2.st, ev.outc, "mismatch-comb"))
-           ELSE IF ~ev.tick THEN /\ st' = s2.st /\ l' = l + 1 /\ UNCHANGED <<tid, err, fin, k, bad>>
-                                 /\ ncmp' = ncmp + NLeaves(ev.outc, FALSE)
-                                 /\ nflat' = nflat + NLeaves(ev.outc, TRUE)
-           ELSE IF s3.err # "ok" THEN Fail("edge:" \o s3.err, 0)
-           ELSE IF s4.err # "ok" THEN Fail("tick:" \o s4.err, 0)
-           ELSE IF c2.err # "ok" THEN FailAll(c2.err, c2.k, AllBad(D, s4.st, ev.outt, "mismatch-tick"))
-           ELSE /\ st' = s4.st /\ l' = l + 1 /\ UNCHANGED <<tid, err, fin, k, bad>>
-                /\ ncmp' = ncmp + NLeaves(ev.outc, FALSE) + NLeaves(ev.outt, FALSE)
-                /\ nflat' = nflat + NLeaves(ev.outc, TRUE) + NLeaves(ev.outt, TRUE)
+           ELSE IF ~go THEN Fail(c1.err, c1.k)                                  \* port-map errors
+           ELSE IF StopAtMismatch /\ m1 THEN Fail(c1.err, c1.k)
+           ELSE IF ticked /\ s3.err # "ok" THEN Fail("edge:" \o s3.err, 0)
+           ELSE IF ticked /\ s4.err # "ok" THEN Fail("tick:" \o s4.err, 0)
+           ELSE IF ticked /\ ~(c2.err = "ok" \/ m2) THEN Fail(c2.err, c2.k)
+           ELSE IF ticked /\ StopAtMismatch /\ m2 THEN Fail(c2.err, c2.k)
+           ELSE \* go on to the next event, remembering the first mismatch and every differing entry
+                /\ st' = (IF ticked THEN s4.st ELSE s2.st) /\ l' = l + 1 /\ UNCHANGED <<tid, err, fin>>
+                /\ IF merr = "ok" /\ (m1 \/ (ticked /\ m2))
+                   THEN merr' = first.err /\ ml' = l /\ k' = first.k
+                   ELSE UNCHANGED <<merr, ml, k>>
+                /\ bad' = (IF m1 \/ (ticked /\ m2) THEN Merge(Merge(bad, b1), IF ticked THEN b2 ELSE <<>>) ELSE bad)
+                /\ ncmp' = ncmp + NLeaves(ev.outc, FALSE) + (IF ticked THEN NLeaves(ev.outt, FALSE) ELSE 0)
+                /\ nflat' = nflat + NLeaves(ev.outc, TRUE) + (IF ticked THEN NLeaves(ev.outt, TRUE) ELSE 0)
 
+\* the verdict: the first failure - an output mismatch seen earlier wins over a later error
+Verdict == IF merr # "ok" THEN <<merr, ml>> ELSE <<err, l>>
+\* (the list of differing entries is printed in chunks: TLC wraps long values over several lines)
+Chunk == 6
+NChunks == IF Len(bad) = 0 THEN 1 ELSE (Len(bad) + Chunk - 1) \div Chunk
 \* (IF, not \/: TLC would split a disjunction into two evaluations and print twice)
 Finish == /\ ~fin /\ (IF err # "ok" THEN TRUE ELSE l > Len(T.ev))
-          /\ PrintT(<<"V", tid, err, l>>)
-          /\ PrintT(<<"T", tid, k, ncmp, nflat, bad>>)
-          /\ fin' = TRUE /\ UNCHANGED <<tid, l, err, st, k, ncmp, nflat, bad>>
+          /\ PrintT(<<"V", tid, Verdict[1], Verdict[2]>>)
+          /\ \A c \in 1..NChunks :
+                PrintT(<<"T", tid, k, ncmp, nflat, SubSeq(bad, (c - 1) * Chunk + 1, S!Min2(c * Chunk, Len(bad)))>>)
+          /\ fin' = TRUE /\ UNCHANGED <<tid, l, err, st, k, ncmp, nflat, bad, merr, ml>>
 
 Next == \/ /\ ~fin /\ err = "ok" /\ l <= Len(T.ev)
            /\ (Start \/ Step)
